@@ -61,6 +61,8 @@ class InvalidHistory(BaseException):
 
 class Backend:
     def __init__(self, input_payload=None, page_size=None, empty_pages=False):
+        self.advance_after_crash = True
+        self.empty_first_from = 2        # first invocation number whose payload has an EMPTY first page (when empty_pages is on)
         self.empty_pages = empty_pages   # every continuation is preceded by an EMPTY page that still carries a marker
         if input_payload is None:
             input_payload = X.json.dumps({})   # real json text, or the json model's token under symbolic execution
@@ -230,7 +232,7 @@ class Backend:
         execop = Operation(EXEC_ID, OperationType.EXECUTION, ST.STARTED, execution_details=ExecutionDetails(self.input_payload))
         history = [execop] + [self.ops[i] for i in self.order]
         marker = ""
-        if self.empty_pages and self.invocation >= 2:
+        if self.empty_pages and self.invocation >= self.empty_first_from:
             # "Due to payload size limitations we may have an empty operations list" (execution.py): the whole history, EXECUTION record included,
             # is behind the marker of an EMPTY first page
             marker = f"inv{self.invocation}"
@@ -561,7 +563,8 @@ def run_execution(handler_fn, backend: Backend, max_invocations=6, ksteps=(), on
             out = wrapped(ev, None)
         except Crash:
             res.outputs.append(("crash",))
-            backend.advance()
+            if backend.advance_after_crash:
+                backend.advance()    # (False: Lambda retries the crashed invocation BEFORE any timer fires or external event arrives)
             continue
         except (sched.Deadlock, sched.StepLimit) as d:
             res.deadlock = d
